@@ -90,7 +90,7 @@ class C09(Check):
         "injected in the worker-side split and in the writer} x position {first, middle, last chunk, only chunk} x "
         "source {DataFrame, HDF5; thorough: FITS, Parquet}; structural faults {missing column, columns of unequal length (HDF5), no patch method, a "
         "centre without objects (first/middle/last)}; directory faults {cache exists without overwrite, overwrite over a "
-        "valid catalog / empty directory / directory with foreign files / regular file, parent missing, parent is a file} "
+        "valid catalog / empty directory / directory with foreign files (also ones named patch_*) / regular file, parent missing, parent is a file} "
         "and the fault-free control; each for workers {1, 2, 4} (quick: {1, 2}) in a forked child under a quiescence "
         "watchdog. Oracle: returned => records == input; fault => must raise; never quiescent; untouched pre-existing "
         "paths; no valid catalog left after a failed creation; sequential and parallel agree. "
